@@ -314,6 +314,8 @@ def _drop_and_bins(ctx: Ctx, dec: FuncInfo, enc2: bool,
     w, h = Poly.var("w"), Poly.var("h")
     i = Poly.var(loop.target.elts[0].id) if isinstance(
         loop.target, ast.Tuple) else Poly.var("i")
+    loop_i = loop.target.elts[0].id if isinstance(
+        loop.target, ast.Tuple) else "i"
 
     def stores_of(stmts: list[ast.stmt]) -> dict[int, Poly]:
         env = Env()
@@ -412,10 +414,34 @@ def _drop_and_bins(ctx: Ctx, dec: FuncInfo, enc2: bool,
             and x.targets[0].id == "bin_start") or (isinstance(
                 x, ast.AnnAssign) and x.value is not None and isinstance(
                 x.target, ast.Name) and x.target.id == "bin_start"))
-        ctx.ob("D14.4", dec, dec.node, n_assign == 2,
+        init0 = [x for x in func_body(dec) if isinstance(
+            x, (ast.Assign, ast.AnnAssign)) and x.value is not None and
+            isinstance(x.targets[0] if isinstance(x, ast.Assign)
+                       else x.target, ast.Name) and (
+                x.targets[0] if isinstance(x, ast.Assign)
+                else x.target).id == "bin_start"]
+        ok0 = len(init0) == 1 and ctx.repo.const(
+            dec.module, init0[0].value) == 0
+        ctx.ob("D14.4", dec, dec.node, n_assign == 2 and ok0,
                "bin_start is set only initially (0) and when a bin is "
-               "opened: earlier bins are never revisited",
-               construct="bin_start assignments", nontrivial=False)
+               "opened: the window [bin_start, i) holds exactly the boxes "
+               "of the current bin" if n_assign == 2 and ok0 else
+               "the window of the current bin does not start at the first "
+               "box (bin_start initial value / extra assignments)",
+               construct="bin_start assignments")
+        # the move kernels are called on (packing, window start, new item)
+        for mk in ("__move_down", "__move_left"):
+            cs = [c_ for c_ in ast.walk(dec.node) if isinstance(c_, ast.Call)
+                  and isinstance(c_.func, ast.Name) and c_.func.id == mk]
+            okm = bool(cs) and all(
+                not c_.keywords and [ast.unparse(a) for a in c_.args] == [
+                    dec.params[1], "bin_start", loop_i]
+                for c_ in cs)
+            ctx.ob("D14.4", dec, cs[0] if cs else dec.node, okm,
+                   f"{mk}(packing, bin_start, i): the item just placed is "
+                   "moved against the boxes of its bin" if okm else
+                   f"{mk} is not called as (packing, bin_start, current "
+                   "index)", construct=f"arguments of {mk}")
     else:
         it = binloop.iter
         okr = isinstance(it, ast.Call) and isinstance(
@@ -454,6 +480,82 @@ def _drop_and_bins(ctx: Ctx, dec: FuncInfo, enc2: bool,
         ctx.ob("D14.4", dec, binloop, okw,
                "each bin's window is [bin_starts[b-1], bin_ends[b-1])",
                construct="bin windows")
+        # ---- the window tables follow the boxes: every box of bin b has an
+        # index in [starts[b-1], ends[b-1])
+        def table_stores(stmts: list[ast.stmt]) -> dict[str, tuple]:
+            env = Env()
+            env.vars["bin_id"] = Poly.var("bin_id")
+            env.vars["item_bin"] = Poly.var("item_bin")
+            env.vars[loop_i] = i
+            out: dict[str, tuple] = {}
+            for st in stmts:
+                if isinstance(st, ast.Assign) and isinstance(
+                        st.targets[0], ast.Subscript) and isinstance(
+                        st.targets[0].value, ast.Name) and \
+                        st.targets[0].value.id in ("bin_starts", "bin_ends"):
+                    try:
+                        k_ = ev.num(env, st.targets[0].slice)
+                        v_ = ev.num(env, st.value)
+                    except Unsupported:
+                        continue
+                    out[st.targets[0].value.id] = (k_, v_)
+                elif isinstance(st, ast.Assign) and isinstance(
+                        st.targets[0], ast.Name) and \
+                        st.targets[0].id == "bin_id":
+                    try:
+                        env = ev.stmt(env, st)
+                    except Unsupported:
+                        pass
+            return out
+        one = Poly.const(1)
+        B, ib = Poly.var("bin_id"), Poly.var("item_bin")
+        t_problems = []
+        init = table_stores([s for s in func_body(dec)
+                             if s is not loop])
+        if init.get("bin_starts") != (Poly.const(0), Poly.const(0)):
+            t_problems.append("bin 1's window does not start at box 0")
+        e0 = init.get("bin_ends")
+        if e0 is None or e0[0] != Poly.const(0) or (
+                e0[1].const_value() is None or e0[1].const_value() > 0):
+            t_problems.append("bin 1's window is not initially empty")
+        placed = table_stores(fit.body if fit is not None else [])
+        if placed.get("bin_ends") != (ib - one, i + one) or \
+                "bin_starts" in placed:
+            t_problems.append(
+                "placing item i in bin b must extend the window: "
+                "bin_ends[b-1] = i + 1 (found "
+                + str({k: (show(a), show(b)) for k, (a, b)
+                       in placed.items()}) + ")")
+        opened = table_stores(newbin.body)
+        if opened.get("bin_starts") != (B, i) or opened.get(
+                "bin_ends") != (B, i + one):
+            t_problems.append(
+                "opening bin B+1 must set its window to [i, i+1): "
+                "bin_starts[B] = i, bin_ends[B] = i + 1 before the counter "
+                "is incremented (found "
+                + str({k: (show(a), show(b)) for k, (a, b)
+                       in opened.items()}) + ")")
+        ctx.ob("D14.4", dec, newbin, not t_problems,
+               "the window tables follow the boxes: bin 1 starts as [0, 0), "
+               "placing item i in bin b sets bin_ends[b-1] = i + 1, opening "
+               "a bin records [i, i+1) - every box of a bin lies inside its "
+               "window" if not t_problems else "; ".join(t_problems),
+               construct="window tables updated")
+        for mk in ("__move_down", "__move_left"):
+            cs = [c_ for c_ in ast.walk(dec.node) if isinstance(c_, ast.Call)
+                  and isinstance(c_.func, ast.Name) and c_.func.id == mk]
+            okm = bool(cs) and all(
+                not c_.keywords and [ast.unparse(a).replace(" ", "")
+                                     for a in c_.args] in (
+                    [dec.params[1], "item_bin", "int(bin_start)",
+                     "int(bin_end)", loop_i],
+                    [dec.params[1], "item_bin", "bin_start", "bin_end",
+                     loop_i]) for c_ in cs)
+            ctx.ob("D14.4", dec, cs[0] if cs else dec.node, okm,
+                   f"{mk}(packing, bin, window start, window end, i)"
+                   if okm else f"{mk} is not called as (packing, bin, "
+                   "window start, window end, current index)",
+                   construct=f"arguments of {mk}")
 
 
 # ------------------------------------------------------------------ D14.1
